@@ -232,9 +232,9 @@ theorem full_watchlist_only_user_paths {ops : List Op} {s : KS} (h : ReachH ops 
   intro p hp
   apply key
   simp only [watchList, KqF.get, bind_apply, pure_apply] at hp
-  by_cases hc : s.closed = true
-  · rw [if_pos hc] at hp; cases hp
-  · rw [if_neg hc] at hp; exact hp
+  cases hc : s.closed with
+  | true => simp [hc] at hp
+  | false => simpa [hc] using hp
 
 /-- `Add`, `Remove` and `Close` deliver nothing on Events or Errors, whatever they find on disk: what
 exists when a watch is added is never reported (C18's first clause; changes are reported by the reader) -/
